@@ -130,6 +130,10 @@ def generate(repo):
     # GZCompress
     gzc = body_of(cc, r"void\s+GZCompress\s*\(\s*StringPiece\s+from\s*,\s*std::string\s*&to\s*,\s*int\s+level\s*\)\s*\{", "GZCompress")
     gz_first = cint(need(r"to\.resize\(\s*(\d+)\s*\)", gzc, "GZCompress initial size").group(1))
+    # input of more than kSizeMax bytes is fed in pieces (zlib's avail_in is an unsigned int)
+    need(r"for\s*\(\s*;\s*amount\s*>\s*GZip::kSizeMax\s*;\s*data\s*\+=\s*GZip::kSizeMax\s*,\s*amount\s*-=\s*GZip::kSizeMax\s*\)\s*\{\s*"
+         r"writer\.SetInput\(data,\s*GZip::kSizeMax\);\s*while\s*\(writer\.AvailInput\(\)\)\s*\{\s*EnsureOutput\(writer,\s*to\);\s*writer\.Process\(\);\s*\}\s*"
+         r"EnsureOutput\(writer,\s*to\);\s*\}\s*writer\.SetInput\(data,\s*amount\);", gzc, "GZCompress: chunked input above kSizeMax")
     gz_inc = cint(need(r"kIncrement\s*=\s*(\d+)\s*;", cc, "EnsureOutput kIncrement").group(1))
 
     z = header_defs(find_header("zlib.h"), ["Z_OK", "Z_STREAM_END", "Z_ERRNO", "Z_BUF_ERROR", "Z_NO_FLUSH", "Z_FINISH"])
